@@ -7,6 +7,10 @@ lean/FordModel/Generated/C16.lean.
   LINK_TYPES (in source order)             ford/fortran_project.py    (ast)
   the exception classes in the `except (...)` clause of load_external_modules, evaluated
   against a fixed list of ways in which fetching modules.json can fail (issubclass)
+  the control flow of load_external_modules around that clause: the `try` is a statement of the loop
+  over the external projects, the conversion (`dict2obj`) is a later statement of the same loop body,
+  and - per way of failing - how the handler that catches it ends: it falls through to the conversion
+  with the description reset to an empty container, or `continue`, `break`, `return`, `raise`
 
 Raises when a construct is not found (counts as 'tie broken')."""
 from __future__ import annotations
@@ -119,8 +123,99 @@ def extract(repo: Path) -> dict:
         caught_classes += list(val) if isinstance(val, tuple) else [val]
     out["caughtSource"] = [c.__name__ for c in caught_classes]
     out["fetchErrors"] = [(n, any(issubclass(c, k) for k in caught_classes)) for n, c in FETCH_ERRORS.items()]
-    # the local-path branch: is the URL turned into a Path unconditionally?
+    out["handlerExits"], out["loopShape"] = _loop_shape(fn, ns)
+    for (n, caught), (n2, ex) in zip(out["fetchErrors"], out["handlerExits"]):
+        if n != n2 or caught != (ex != "uncaught"):
+            raise LookupError(f"load_external_modules: {n} caught={caught} but handler exit {ex!r}")
     return out
+
+
+EXITS = {ast.Return: "return", ast.Break: "break", ast.Continue: "continue", ast.Raise: "raise"}
+
+
+def _calls(node, name: str) -> bool:
+    return any(isinstance(c, ast.Call) and ((isinstance(c.func, ast.Name) and c.func.id == name) or
+                                             (isinstance(c.func, ast.Attribute) and c.func.attr == name))
+               for c in ast.walk(node))
+
+
+def _loop_shape(fn: ast.FunctionDef, ns: dict):
+    """The statement structure of `load_external_modules` the model `loadAll` relies on.
+
+    for <url> in <...external...>:        # one iteration per external project
+        ...
+        try: <fetch>                        # a statement of the loop body itself
+        except <classes>: <handler>
+        ...
+        for <item> in <NAME>: dict2obj(...) # a later statement of the same body
+    (nothing that converts descriptions after the loop)
+
+    -> per way of failing (FETCH_ERRORS) how the first handler that catches it ends."""
+    loops = [n for n in fn.body if isinstance(n, (ast.For, ast.While))]
+    outer = [n for n in loops if isinstance(n, ast.For) and "external" in ast.unparse(n.iter)]
+    if len(outer) != 1:
+        raise LookupError("load_external_modules: expected exactly one top-level loop over project.external")
+    outer = outer[0]
+    if outer.orelse:
+        raise LookupError("load_external_modules: the loop over the external projects has an else branch")
+    after = fn.body[fn.body.index(outer) + 1:]
+    if any(_calls(n, "dict2obj") for n in after) or any(_calls(n, "dict2obj") for n in fn.body[:fn.body.index(outer)]):
+        raise LookupError("load_external_modules: descriptions are converted outside the loop over the external projects")
+    tries = [i for i, n in enumerate(outer.body) if isinstance(n, ast.Try)]
+    nested = [t for t in ast.walk(outer) if isinstance(t, ast.Try)]
+    if len(tries) != 1 or len(nested) != 1:
+        raise LookupError("load_external_modules: expected exactly one try statement, directly in the loop body")
+    ti = tries[0]
+    tr = outer.body[ti]
+    if tr.finalbody or tr.orelse:
+        raise LookupError("load_external_modules: try statement with else / finally is not modelled")
+    conv = [(i, n) for i, n in enumerate(outer.body) if i > ti and isinstance(n, ast.For) and _calls(n, "dict2obj")]
+    if len(conv) != 1 or not isinstance(conv[0][1].iter, ast.Name):
+        raise LookupError("load_external_modules: expected one conversion loop `for x in <name>: dict2obj(...)` after the try")
+    if any(_calls(n, "dict2obj") for i, n in enumerate(outer.body) if i != conv[0][0]):
+        raise LookupError("load_external_modules: dict2obj is called outside the conversion loop")
+    var = conv[0][1].iter.id
+    # between the try and the conversion nothing may leave the iteration
+    for n in outer.body[ti + 1:]:
+        for x in ast.walk(n):
+            if isinstance(x, tuple(EXITS)):
+                raise LookupError("load_external_modules: the loop body leaves the iteration after the try statement")
+    exits = []
+    for h in tr.handlers:
+        classes = [BaseException]
+        if h.type is not None:
+            val = eval(ast.unparse(h.type), ns)  # noqa: S307 - resolved above already
+            classes = list(val) if isinstance(val, tuple) else [val]
+        inner = [x for n in h.body for x in ast.walk(n) if isinstance(x, tuple(EXITS))]
+        last = h.body[-1]
+        if inner and not (len(inner) == 1 and inner[0] is last):
+            raise LookupError("load_external_modules: the except handler leaves conditionally / more than once")
+        if inner:
+            how = EXITS[type(last)]
+        else:
+            resets = False
+            for n in h.body:
+                if isinstance(n, ast.Assign) and len(n.targets) == 1 and isinstance(n.targets[0], ast.Name) \
+                        and n.targets[0].id == var:
+                    try:
+                        v = ast.literal_eval(n.value)
+                        resets = isinstance(v, (list, dict, tuple, str, set)) and len(v) == 0
+                    except Exception:
+                        resets = False
+                elif any(isinstance(x, ast.Name) and x.id == var and isinstance(x.ctx, ast.Store) for x in ast.walk(n)):
+                    resets = False
+            if not resets:
+                raise LookupError(f"load_external_modules: the except handler falls through to the conversion without "
+                                  f"resetting `{var}` to an empty container")
+            how = "fallthrough"
+        exits.append((classes, how))
+    per = []
+    for n, c in FETCH_ERRORS.items():
+        how = next((hw for classes, hw in exits if any(issubclass(c, k) for k in classes)), "uncaught")
+        per.append((n, how))
+    shape = {"loop_over": ast.unparse(outer.iter), "converted_variable": var,
+             "handlers": [([k.__name__ for k in cl], hw) for cl, hw in exits]}
+    return per, shape
 
 
 def render(t: dict) -> str:
@@ -153,6 +248,13 @@ def render(t: dict) -> str:
         "    of `load_external_modules` catches them -/",
         "def fetchErrors : List (Str × Bool) := [",
         ",\n".join(f"  ({_lean_str(n)}, {'true' if c else 'false'}) /- {n} -/" for n, c in t["fetchErrors"]),
+        "]",
+        "/-- per way of failing, how the `except` handler of `load_external_modules` that catches it ends:",
+        "    `fallthrough` (description reset to an empty container, the rest of the loop body runs), `continue`,",
+        "    `break`, `return`, `raise`; `uncaught` when no handler names it.  The `try` is a statement of the loop",
+        f"    `for ... in {t['loopShape']['loop_over']}` and `{t['loopShape']['converted_variable']}` is converted later in the same body. -/",
+        "def handlerExits : List (Str × Str) := [",
+        ",\n".join(f"  ({_lean_str(n)}, {_lean_str(h)}) /- {n}: {h} -/" for n, h in t["handlerExits"]),
         "]",
         "end Ford.Ext.Gen",
         "",
